@@ -1,5 +1,5 @@
 /- Driver ops for the Cli model (C18): `cli.exit`, `cli.main`, `cli.phases`, `cli.classify`, `cli.argv`, `cli.process`,
-   `cli.parser`, `cli.parseinput`, `cli.initctx`, `cli.shortcut`. -/
+   `cli.runphase`, `cli.parser`, `cli.parseinput`, `cli.initctx`, `cli.shortcut`. -/
 import Lean.Data.Json
 import PypyrModel.Json
 import PypyrModel.Cli
@@ -264,6 +264,24 @@ def handle (op : String) (j : Json) : Except String Json := do
     let log ← (match j.getObjVal? "log_level" with | .ok _ => optIntOf j "log_level" | .error _ => pure none)
     pure ((outcomeJ log (pipelineRun out) (tryMain (pipelineRun out))).setObjVal! "handler" (optJ Json.str (failureHandler g))
       |>.setObjVal! "ran" (strsJ (ranOnParserFailure body g)) |>.setObjVal! "leaves_run" (Json.str (kindOf out)))
+  | "runphase" =>
+    -- `run_step_groups`: {mains: [raised…] (what leaves the steps of each main group), success: raised|null,
+    --  failure: raised|null (null: no failure group in effect / no such group), log_level}
+    let optRaised (k : String) : Except String (Option Raised) := do
+      match ← j.getObjVal? k with
+      | .null => pure none
+      | v => pure (some (← raisedOf v))
+    let mains ← (← (← j.getObjVal? "mains").getArr?).toList.mapM raisedOf
+    let su ← optRaised "success"
+    let fa ← optRaised "failure"
+    let out := runStepGroups mains su fa
+    let log ← (match j.getObjVal? "log_level" with | .ok _ => optIntOf j "log_level" | .error _ => pure none)
+    pure ((outcomeJ log (pipelineRun out) (tryMain (pipelineRun out)))
+      |>.setObjVal! "leaves_run" (Json.str (kindOf out))
+      |>.setObjVal! "body" (Json.str (kindOf (tryBody mains su)))
+      |>.setObjVal! "mains_started" (natJ (mainGroupsStarted mains))
+      |>.setObjVal! "success_started" (Json.bool (successStarted mains su))
+      |>.setObjVal! "handler_runs" (Json.bool (handlerRuns codeLadders mains su fa)))
   | "parsecalls" =>
     -- a sequence of parser calls / in-place mutations of earlier results in ONE process:
     -- {ops: [["call", parser, [args]] | ["mutate", i, value]…]} → [result of every call]
